@@ -24,9 +24,10 @@ const (
 	// bounded quiescence: every fake call returns immediately, so Worker.Do must have
 	// returned or be idle in Source.Read long before this (a timeout is inconclusive, not red)
 	quiescenceBound = 10 * time.Second
-	// documented: a true fixpoint fails within maxRetryStall+1 Task.Do calls (maxRetryStall = 3);
-	// every shrinking round in between adds one call
-	retryStallCalls = 4
+	// documented: a true fixpoint fails within maxRetryStall+1 Task.Do calls; a round in which the
+	// retry group shrinks resets the stall counter, and a group of n records can shrink at most n-1
+	// times, so a never-answered record is handed over at most 1 + maxRetryStall*n times
+	maxRetryStall = 3
 )
 
 type panicInfo struct {
@@ -110,8 +111,8 @@ func buildWorker(ctx context.Context, w *world) (*funnel.Worker, error) {
 	return funnel.NewWorker(first, dlq, logger, noop.Timer{})
 }
 
-func runFunnel(c FCase, avoid map[string]bool) *runResult {
-	w := newWorld(c, avoid)
+func runFunnel(c FCase) *runResult {
+	w := newWorld(c, c.avoidMap())
 	r := &runResult{w: w}
 	ctx, cancel := context.WithCancel(context.Background())
 	defer cancel()
@@ -230,7 +231,7 @@ func factsOf(c FCase, fired []string) facts {
 	f.split = fs[shProcSplit]
 	f.nackRisk = c.DLQWindow > 0 && (fs[shProcError] || fs["dst-"+shAckNack] || fs[shProcErrorNil])
 	f.mayFail = fs[shProcLong] || fs[shProcErrorNil] || fs[shSrcDupPos] || fs["dst-"+shAckEmpty] || fs["dlq-"+shAckEmpty] ||
-		fs[shCondShort] || f.nackRisk || (f.split && (fs[shProcShort] || fs[shProcNil] || fs[shProcNilForever]))
+		fs[shCondShort] || fs[shSplitEmptyPos] || fs[shSplitDupPos] || f.nackRisk || (f.split && (fs[shProcShort] || fs[shProcNil] || fs[shProcNilForever]))
 	return f
 }
 
@@ -250,11 +251,10 @@ func subset(m map[string]bool, allowed ...string) bool {
 }
 
 // checkFunnel is the oracle. It returns the violations in order of severity.
-func checkFunnel(c FCase, r *runResult) []violation {
+func checkFunnel(c FCase, r *runResult) (out []violation, rules []string) {
 	w := r.w
 	w.mu.Lock()
 	defer w.mu.Unlock()
-	var out []violation
 	trig := triggerOf(r.firedDo)
 	hist := "\n  " + joinLog(w.log, 40)
 	// (a) no panic
@@ -266,7 +266,7 @@ func checkFunnel(c FCase, r *runResult) []violation {
 			continue
 		}
 		if ph.p.site == siteHarness {
-			return []violation{{"C09/harness-bug/panic", ph.p.val + "\n" + trimStack(ph.p.stack, 30)}}
+			return []violation{{"C09/harness-bug/panic", ph.p.val + "\n" + trimStack(ph.p.stack, 30)}}, nil
 		}
 		key := "C09/panic/" + ph.p.site + "/" + trig
 		if ph.name != "do" {
@@ -298,11 +298,12 @@ func checkFunnel(c FCase, r *runResult) []violation {
 				out = append(out, violation{"C09/error-lost/open", fmt.Sprintf("Worker.Open error does not wrap the plugin's error: %v", r.openErr)})
 			}
 		}
-		return out
+		return out, rules
 	}
 	f := factsOf(c, r.firedDo)
 	// documented handling
 	if r.idle {
+		rules = append(rules, "rule:idle-implies-all-acked-and-no-fatal-shape")
 		if r.acked != r.read {
 			out = append(out, violation{"C09/lost-record/" + trig,
 				fmt.Sprintf("the worker went back to Source.Read without an error but only %d of %d read records were acknowledged; history:%s", r.acked, r.read, hist)})
@@ -311,41 +312,42 @@ func checkFunnel(c FCase, r *runResult) []violation {
 			out = append(out, violation{"C09/continued-after/" + f.fatal[0],
 				fmt.Sprintf("the worker kept running after %v; history:%s", f.fatal, hist)})
 		}
-		return out
+		return out, rules
 	}
 	if r.doErr == nil {
 		out = append(out, violation{"C09/returned-without-error/" + trig, "Worker.Do returned nil although nobody stopped the worker; history:" + hist})
-		return out
+		return out, rules
 	}
 	code := errCode(r.doErr)
 	if len(f.fatal) == 0 && !f.mayFail {
+		rules = append(rules, "rule:handled-shapes-must-not-stop-the-pipeline")
 		out = append(out, violation{"C09/spurious-error/" + trig,
 			fmt.Sprintf("only shapes with a documented non-fatal handling were produced (%v) but the pipeline stopped: %v; history:%s", sortedKeys(f.fs), r.doErr, hist)})
-		return out
+		return out, rules
 	}
 	switch {
 	case len(f.fatal) == 1 && f.fatal[0] == shProcNilForever && !f.split && !f.nackRisk && subset(f.hostile, shProcNilForever, shProcNil, shProcShort):
+		rules = append(rules, "rule:nil-forever-ends-in-retry-not-converging")
 		if code != funnel.CodeRetryNotConverging.Reason() || !cerrors.IsFatalError(r.doErr) {
 			out = append(out, violation{"C09/undocumented-handling/nil-forever",
 				fmt.Sprintf("a processor that never answers a record must end in the fatal error %s, got code %q fatal=%v: %v; history:%s",
 					funnel.CodeRetryNotConverging.Reason(), code, cerrors.IsFatalError(r.doErr), r.doErr, hist)})
 		}
 		for k, n := range w.nilCalls {
-			if n > w.maxBatch+retryStallCalls {
+			if n > 1+maxRetryStall*w.maxBatch {
 				out = append(out, violation{"C09/undocumented-handling/nil-forever",
 					fmt.Sprintf("%s was handed to the processor %d times (batch of %d); history:%s", k, n, w.maxBatch, hist)})
 				break
 			}
 		}
 	case len(f.fatal) == 1 && f.fatal[0] == shSrcEmptyPos && !f.split && !f.nackRisk && subset(f.hostile, shSrcEmptyPos):
+		rules = append(rules, "rule:empty-position-refused-with-code")
 		if code != funnel.CodeEmptySourcePosition.Reason() {
 			out = append(out, violation{"C09/undocumented-handling/empty-position",
 				fmt.Sprintf("an empty source position must be refused with %s, got code %q: %v; history:%s", funnel.CodeEmptySourcePosition.Reason(), code, r.doErr, hist)})
 		}
-	case len(f.fatal) == 0 && !f.split && !f.nackRisk && len(f.hostile) > 0 && subset(f.hostile, shProcShort, shProcNil):
-		out = append(out, violation{"C09/undocumented-handling/short-output-not-retried",
-			fmt.Sprintf("a short or partly empty processor output must be retried, but the pipeline stopped: %v; history:%s", r.doErr, hist)})
 	case len(f.fatal) == 0 && !f.anyProcShape && !f.nackRisk && len(f.hostile) > 0 && subset(f.hostile, shSrcDupPos):
+		rules = append(rules, "rule:duplicate-position-refused-only-at-fan-out")
 		if len(c.Branches) >= 2 && code != funnel.CodeDuplicateSourcePosition.Reason() {
 			out = append(out, violation{"C09/undocumented-handling/duplicate-position",
 				fmt.Sprintf("duplicate positions at a fan-out must be refused with %s, got code %q: %v; history:%s", funnel.CodeDuplicateSourcePosition.Reason(), code, r.doErr, hist)})
@@ -355,7 +357,7 @@ func checkFunnel(c FCase, r *runResult) []violation {
 				fmt.Sprintf("duplicate positions without a fan-out do not matter, but the pipeline stopped: %v; history:%s", r.doErr, hist)})
 		}
 	}
-	return out
+	return out, rules
 }
 
 // ---- known findings -> shapes to avoid ----
@@ -391,8 +393,6 @@ func knownAvoid(st *pbt.Stats) avoidSet {
 	}
 	add("C09/undocumented-handling/nil-forever", shProcNilForever)
 	add("C09/undocumented-handling/empty-position", shSrcEmptyPos)
-	add("C09/undocumented-handling/short-output-not-retried", shProcShort)
-	add("C09/undocumented-handling/short-output-not-retried", shProcNil)
 	add("C09/undocumented-handling/duplicate-position", shSrcDupPos)
 	return a
 }
@@ -403,8 +403,10 @@ var funnelKindGen = rapid.SampledFrom([]int{
 	KSingle, KSingle, KSingle, KSingle, KSingle, KSingle, KSingle, KSingle, KSame, KSame, KFilter, KFilter, KError, KError,
 	KMulti0, KMulti1, KMulti3, KMulti3, KNil, KNil, KNil, KChangePos, KEmptyPos, KErrorNil})
 
+// chance is true in roughly percent % of the draws. rapid's integers are biased towards the
+// lower bound, therefore the rare outcome sits at the upper end (and shrinks away).
 func chance(t *rapid.T, label string, percent int) bool {
-	return rapid.IntRange(0, 99).Draw(t, label) < percent
+	return rapid.IntRange(0, 99).Draw(t, label) >= 100-percent
 }
 
 func genProcScript(t *rapid.T, label string, totalRecs int, deltas []int) ProcScript {
@@ -460,11 +462,9 @@ func genBatches(t *rapid.T, maxBatches, maxLen int, hostilePos bool) ([][]RecSpe
 	total := 0
 	var out [][]RecSpec
 	for b := 0; b < nb; b++ {
-		n := rapid.IntRange(0, maxLen+1).Draw(t, "batchlen")
-		if n == maxLen+1 { // make the empty batch rare
+		n := rapid.IntRange(1, maxLen).Draw(t, "batchlen")
+		if chance(t, "emptybatch", 4) {
 			n = 0
-		} else if n == 0 {
-			n = 1
 		}
 		batch := make([]RecSpec, n)
 		for i := range batch {
@@ -534,8 +534,9 @@ var nontrivialShapes = []string{shProcZero, shProcShort, shProcLong, shProcNil, 
 	"dlq-" + shAckWrongPos, "dlq-" + shAckSurplus, "dlq-" + shAckOOO, "dlq-" + shAckEmpty, "dlq-" + shAckShortErr}
 
 func execFunnel(t fataler, st *pbt.Stats, c FCase, av avoidSet) {
+	c.Avoid = sortedKeys(av.shapes)
 	pbt.MarkCurrent(prop, c)
-	r := runFunnel(c, av.shapes)
+	r := runFunnel(c)
 	if r.setupErr != nil {
 		t.Fatalf("setup: %v", r.setupErr)
 	}
@@ -580,7 +581,10 @@ func execFunnel(t fataler, st *pbt.Stats, c FCase, av avoidSet) {
 		st.Inconcl(c.Test + ": " + r.inconclusive)
 	}
 	st.Case(pbt.Hash(c), nontrivial, classes...)
-	vs := checkFunnel(c, r)
+	vs, rules := checkFunnel(c, r)
+	for _, ru := range rules {
+		st.Class(prefix+ru, 1)
+	}
 	if nontrivial && st.WantSample() {
 		w.mu.Lock()
 		st.Sample(map[string]any{"case": c, "history": append([]string(nil), w.log...), "do_error": fmt.Sprint(r.doErr)})
